@@ -106,12 +106,14 @@ def run(seed_id, tier, pids):
     pids = pids or [meta["property"]]
     rc, out = sh("git -C /repo status --porcelain")
     assert out.strip() == "", "/repo not clean:\n" + out
-    rc, out = sh("git -C /repo apply --3way %s/patch.diff || git -C /repo apply %s/patch.diff" % (d, d))
+    patch = os.path.join(d, "patch.rebased.diff")
+    if not os.path.exists(patch):
+        patch = os.path.join(d, "patch.diff")
+    rc, out = sh("git -C /repo apply %s" % patch)
     if rc != 0:
         print("PATCH-DOES-NOT-APPLY", seed_id, out[-400:])
-        sh("git -C /repo checkout -- . && git -C /repo reset -q")
+        sh("git -C /repo reset -q --hard HEAD")
         return
-    sh("git -C /repo reset -q")
     results = {}
     try:
         for pid in pids:
@@ -124,7 +126,7 @@ def run(seed_id, tier, pids):
             if rc == 2:
                 print(out[-1500:])
     finally:
-        sh("git -C /repo checkout -- . && git -C /repo clean -fdq -- internal pkg")
+        sh("git -C /repo reset -q --hard HEAD && git -C /repo clean -fdq -- internal pkg")
     return results
 
 
